@@ -78,6 +78,7 @@ type Op struct {
 	Remove     []int  `json:"remove,omitempty"`     // accounts (index+1) whose accountDid is removed
 	Update     []int  `json:"update,omitempty"`     // accounts (index+1) whose auth is updated
 	PastSeed   string `json:"pastSeed,omitempty"`
+	SidTs      uint64 `json:"sidTs,omitempty"`      // creation timestamp of the sid identity (fixed by the generator so that replays agree)
 	SleepMs    int    `json:"sleepMs,omitempty"`    // wall-clock delay before executing (replica offset)
 	Eth        bool   `json:"eth,omitempty"`
 }
@@ -292,6 +293,14 @@ func okb(p *bool) bool { return p == nil || *p }
 // The op is also normalised (ids resolved) into `out` for the model.
 func (w *World) Exec(op *Op) (Result, M) {
 	app := w.C.App
+	if op.Sid != 0 && op.SidTs != 0 {
+		if w.sidTs == nil {
+			w.sidTs = map[int]uint64{}
+		}
+		if _, ok := w.sidTs[op.Sid]; !ok {
+			w.sidTs[op.Sid] = op.SidTs
+		}
+	}
 	out := M{"k": op.K}
 	if op.Note != "" {
 		out["note"] = op.Note
